@@ -8,7 +8,7 @@ ids="$@"; [ -z "$ids" ] && ids=$(/verif/bin/gokrb5lint list)
 d=$(mktemp -d ${TMPDIR:-/tmp}/tryneutralXXXX)
 rsync -a --exclude .git ${SRC:-/repo/v8}/ $d/
 ( cd $d && patch -p2 -s --no-backup-if-mismatch < $sd/patch.diff ) || { echo "RESULT apply-failed"; rm -rf $d; exit 2; }
-( cd $d && go build ./... ) || { echo "RESULT nocompile"; rm -rf $d; exit 2; }
+( cd $d && go build -trimpath ./... ) || { echo "RESULT nocompile"; rm -rf $d; exit 2; }
 if [ -z "$NOSUITE" ]; then
   bad=$( cd $d && go test -vet=off -count=1 ./... 2>&1 | grep -v "no test files" | grep -v "^ok" | head -3 )
   [ -n "$bad" ] && { echo "RESULT suite-fails: $bad"; rm -rf $d; exit 2; }
